@@ -14,7 +14,7 @@ PID = "C08"
 THEOREMS = ["coarsenBins_spec", "coarsenGroup_eq_spec", "cmap_monotone", "cmap_closed_form", "edge_boundary", "no_group_split",
             "coarsen_eq_spec", "coarsen_total", "coarsener_stream_sorted", "coarsen_chunk_independent",
             "coarsen_map_independent", "coarsen_compose", "coarsen_merge_commute", "rebin_correct", "prune_contract",
-            "groupSum_map_groupSum"]
+            "groupSum_map_groupSum", "coarsen_correct", "coarsen_pointwise", "coarsen_triu", "coarsen_inRange", "groups_flatten"]
 LEVELS = {"coarsen": "top", "chain": "top", "merge_coarsen": "top", "agg": "top", "extra_column": "top", "cli": "top",
           "prune": "unit", "coarsener": "unit", "bins": "unit"}
 DESCRIBE = {
